@@ -23,10 +23,23 @@ type vRecord struct {
 	Harness string   `json:"harness"`
 	Params  []int    `json:"params"`
 	Inputs  []vInput `json:"inputs"`
+	// Search > 0: the bit/byte inputs of the record are replaced by Search different pseudo-random inputs, one run each
+	// (used when the solver has shown that a difference exists but its own witness does not separate the two sides)
+	Search int `json:"search,omitempty"`
 }
 
 var vRec vRecord
 var vPos int
+var vSearchSeed uint64 // > 0: bit/byte inputs come from this pseudo-random stream instead of the record
+
+func vRandBit() bool {
+	// xorshift64*
+	vSearchSeed ^= vSearchSeed >> 12
+	vSearchSeed ^= vSearchSeed << 25
+	vSearchSeed ^= vSearchSeed >> 27
+	return (vSearchSeed*2685821657736338717)>>63 == 1
+}
+
 var vFailures []string
 var vMarginal []string
 var vReached []string
@@ -63,6 +76,12 @@ type vAssumeFailed struct{}
 func vBits(n int) []bool {
 	in := vNext("bits")
 	r := make([]bool, n)
+	if vSearchSeed > 0 {
+		for i := range r {
+			r[i] = vRandBit()
+		}
+		return r
+	}
 	for i := 0; i < n && i < len(in.Bits); i++ {
 		r[i] = in.Bits[i] == '1'
 	}
@@ -73,6 +92,17 @@ func vBits(n int) []bool {
 func vBytes(n int) []byte {
 	in := vNext("bytes")
 	r := make([]byte, n)
+	if vSearchSeed > 0 {
+		for i := range r {
+			for j := 0; j < 8; j++ {
+				r[i] <<= 1
+				if vRandBit() {
+					r[i] |= 1
+				}
+			}
+		}
+		return r
+	}
 	for i := 0; i < n; i++ {
 		for j := 0; j < 8; j++ {
 			r[i] <<= 1
